@@ -16,15 +16,20 @@ from . import model as M
 
 PROJECT = ('project p "P" 2025-01-06 +2w {\n  timezone "UTC"\n}\nresource r "R" {}\n'
            'task a "A" {\n  effort 2d\n  allocate r\n}\ntask b "B" {\n  effort 1d\n  allocate r\n  depends !a\n}\n')
-USER_REPORT = 'taskreport {name} "{name}" {{\n  formats {fmt}\n  columns name\n}}\n'
+USER_REPORT = 'taskreport {rid} "{name}" {{\n  formats {fmt}\n  columns name\n}}\n'
 
 CLASSES = ["plain", "crlf", "missing", "directory", "empty", "blank", "invalid_utf8"]
 USER_SETS = [[], [("a_user", "json")], [("zz_user", "json")], [("a_user", "csv")], [("a_user", "json"), ("zz_user", "csv")],
-             [("a_user", "json"), ("zz_user", "json")]]
+             [("a_user", "json"), ("zz_user", "json")],
+             # report names are file names: a sub-directory, a path climbing out of the output directory, an absolute path
+             [("sub/dir/rep", "csv")], [("../escaped_report", "json")], [("/work/abs_report", "json")]]
 
 
-def content(cls: str, users: list[tuple[str, str]]) -> Optional[bytes]:
-    text = PROJECT + "".join(USER_REPORT.format(name=n, fmt=f) for n, f in users)
+def content(cls: str, users: list[tuple[str, str]], absroot: str = "/work") -> Optional[bytes]:
+    users = [(absroot + n[len("/work"):] if n.startswith("/work/") else n, f) for n, f in users]
+    import re as _re
+
+    text = PROJECT + "".join(USER_REPORT.format(rid=_re.sub(r"\W", "_", n).strip("_") or "r", name=n, fmt=f) for n, f in users)
     if cls == "plain":
         return text.encode()
     if cls == "crlf":
@@ -263,7 +268,8 @@ def real_run(scn: dict, real_faults: Optional[dict] = None, py: str = sys.execut
         tmpd, cwd, ind = (os.path.join(root, x) for x in ("tmp", "cwd", "in"))
         for d in (tmpd, cwd, ind):
             os.makedirs(d)
-        data = content(scn["cls"], scn["users"])
+        absroot = os.path.join(root, "abs")
+        data = content(scn["cls"], scn["users"], absroot)
         real_path = os.path.join(ind, "proj.tjp")
         if scn["channel"] == "file":
             if scn["cls"] == "directory":
@@ -286,7 +292,7 @@ def real_run(scn: dict, real_faults: Optional[dict] = None, py: str = sys.execut
         p = subprocess.run([py, "-c", RUNNER, json.dumps(s2)], cwd=cwd, env=env, capture_output=True,
                            input=(data or b"") if scn["channel"] != "file" else b"", timeout=120)
         left = sorted(os.listdir(tmpd))
-        out_cwd = sorted(os.listdir(cwd))
+        out_cwd = sorted(os.listdir(cwd)) + (sorted(os.listdir(absroot)) if os.path.isdir(absroot) else [])
         obs = {"exit_code": p.returncode, "stdout": [p.stdout.decode("utf-8", "replace")], "stderr": [p.stderr.decode("utf-8", "replace")],
                "leftovers": left, "outside": out_cwd, "crash": None}
         if scn.get("output") and os.path.exists(real_out):
